@@ -47,7 +47,26 @@ type EmbP struct {
 }
 type Unk struct {
 	M map[string]*S2
-	U map[string]any `json:",unknown"`
+	U map[string]any `json:",embed"`
+}
+// fallback maps whose entries are structs / pointers to structs / maps (an entry named again must be merged)
+type UnkS struct {
+	A int
+	U map[string]S2 `json:",embed"`
+}
+type UnkP struct {
+	U map[string]*S2 `json:",embed"`
+	B string
+}
+type UnkM struct {
+	A int
+	U map[string]map[string]int `json:",embed"`
+}
+type BA struct {
+	A [4]byte
+	P *[3]byte
+	S []byte
+	N [2]int
 }
 type PL struct {
 	L  *[]int
@@ -64,7 +83,7 @@ type Tagged struct {
 }
 
 func rootTypes() []reflect.Type {
-	return append(rootTypes0(), reflect.TypeOf(EmbP{}), reflect.TypeOf(Unk{}), reflect.TypeOf(PL{}), reflect.TypeOf(Tagged{}),
+	return append(rootTypes0(), reflect.TypeOf(UnkS{}), reflect.TypeOf(UnkP{}), reflect.TypeOf(UnkM{}), reflect.TypeOf(BA{}), reflect.TypeOf(map[string][4]byte{}), reflect.TypeOf(EmbP{}), reflect.TypeOf(Unk{}), reflect.TypeOf(PL{}), reflect.TypeOf(Tagged{}),
 		reflect.TypeOf(map[string]*map[string]int{}), reflect.TypeOf([2][]int{}), reflect.TypeOf([][2]int{}), reflect.TypeOf(map[string]struct {
 			A *int
 			B []string
@@ -101,6 +120,10 @@ func texts(t reflect.Type, depth int) []string {
 		}
 		return out
 	case reflect.Slice, reflect.Array:
+		if t.Elem().Kind() == reflect.Uint8 {
+			// binary data: strings decoding to 0..5 bytes (shorter, equal and longer than the Go arrays used)
+			return []string{"null", `""`, `"AQ=="`, `"AQI="`, `"AQID"`, `"BQYHCA=="`, `"CQoLDA0="`, `"/w=="`}
+		}
 		out := []string{"null", "[]"}
 		if depth <= 0 {
 			return append(out, "[1]"[:0])
@@ -175,8 +198,13 @@ func texts(t reflect.Type, depth int) []string {
 					if n, _, _ := strings.Cut(tag, ","); n != "" {
 						name = n
 					}
-					if strings.Contains(tag, "unknown") {
-						fs = append(fs, fld{"u1", []string{"1", `{"x":1}`, `{"y":2}`, "null"}}, fld{"u2", []string{"[1]", `{"x":{"p":1}}`, `{"x":{"q":2}}`}})
+					if strings.Contains(tag, "embed") && f.Type.Kind() == reflect.Map {
+						// fallback map for members not matching any field: member names u1, u2 with values fitting the element type
+						ev := texts(f.Type.Elem(), depth-1)
+						if f.Type.Elem().Kind() == reflect.Interface {
+							ev = []string{"1", `{"x":1}`, `{"y":2}`, "null", "[1]", `{"x":{"p":1}}`, `{"x":{"q":2}}`}
+						}
+						fs = append(fs, fld{"u1", ev}, fld{"u2", ev[len(ev)/2:]})
 						continue
 					}
 				}
@@ -244,6 +272,10 @@ func checkChain(t reflect.Type, chain []string) (msg string) {
 		}
 		if msg = checkChainOpts(t, chain, []jsonv2.Options{jsonv1.MergeWithLegacySemantics(false), jsontext.AllowDuplicateNames(false)}); msg != "" {
 			return "with MergeWithLegacySemantics(false) passed explicitly: " + msg
+		}
+		// arrays may take inputs of any length: missing elements are zeroed, also for byte arrays written as strings
+		if msg = checkChainOpts(t, chain, []jsonv2.Options{jsonv1.UnmarshalArrayFromAnyLength(true)}); msg != "" {
+			return "with UnmarshalArrayFromAnyLength(true): " + msg
 		}
 	}
 	return ""
